@@ -2747,6 +2747,9 @@ impl ModuleGraph {
           log::warn!(
             "An infinite loop of redirections detected.\n  Original specifier: {specifier}"
           );
+          // settle on the specifier where the loop closes so that resolving
+          // the result again gives the same answer
+          redirected_specifier = specifier;
           break;
         }
         redirected_specifier = specifier;
